@@ -21,7 +21,9 @@ class Contract:
         self.returns: str | None = kw.pop("returns", None)
         self.let: dict[str, str] = kw.pop("let", {})
         self.ghost_entry: list[str] = kw.pop("ghost_entry", [])
-        self.asserts: dict[int, list[str]] = kw.pop("asserts", {})  # lineno-relative cuts: {line offset: [exprs]}
+        # anchors: unparsed statement text, optionally "#n" for the n-th match, or "return#n"
+        self.cuts: dict[str, list[str]] = kw.pop("cuts", {})  # anchor -> clauses proved then assumed before the statement
+        self.ghost_at: dict[str, dict[str, str]] = kw.pop("ghost_at", {})  # anchor -> {ghost location: expr}
         self.use_invariant: bool = kw.pop("use_invariant", True)
         self.trusted: bool = kw.pop("trusted", False)  # stub: never verified, only assumed
         self.pure: bool = kw.pop("pure", False)
@@ -31,6 +33,8 @@ class Contract:
         self.prop: list[str] = kw.pop("prop", [])
         self.max_paths = kw.pop("max_paths", None)
         self.assume_pre: list[str] = kw.pop("assume_pre", [])
+        self.ghost_exit: dict[str, str] = kw.pop("ghost_exit", {})  # ghost location -> new value (old() = entry state)
+        self.exit_cuts: list[str] = kw.pop("exit_cuts", [])  # ghost cuts proved then assumed at every normal exit
         self.specialize: dict[str, list] = kw.pop("specialize", {})  # param -> concrete values (case split, completeness proved)  # labelled assumptions (listed in evidence)
         if kw:
             raise TypeError("unknown contract keys %s for %s" % (list(kw), key))
@@ -47,6 +51,7 @@ class Registry:
         self.opaque_types: set[str] = set()
         self.lemmas: dict[str, dict] = {}
         self.consts: dict[str, object] = {}
+        self.ghost: dict[str, dict[str, str]] = {}
 
     # ---- declaration API used by sidecar files
     def contract(self, key, **kw):
@@ -54,6 +59,10 @@ class Registry:
 
     def field_types(self, cls, **fields):
         self.fields.setdefault(cls, {}).update(fields)
+
+    def ghost_field(self, cls, name, ty, native=None):
+        self.fields.setdefault(cls, {})[name] = ty
+        self.ghost.setdefault(cls, {})[name] = native
 
     def spec(self, src):
         self.spec_src.append(src)
